@@ -1067,6 +1067,7 @@ func Main(wide bool) {
 		}
 		for i := 0; i < n; i++ {
 			line, cls := GenJourney(rj)
+			out.Case("reset 128", "ok", "reset", false) // (a replay is the op lines since the last reset: this op alone)
 			out.Case(line, RunJourney(line), cls, true)
 			njr++
 		}
@@ -1084,6 +1085,7 @@ func Main(wide bool) {
 		}
 		for i := 0; i < n; i++ {
 			line, cls := GenCloseFault(rc)
+			out.Case("reset 128", "ok", "reset", false)
 			out.Case(line, RunCloseFault(line), cls, true)
 			ncf++
 		}
